@@ -117,12 +117,20 @@ class HarnessError(Exception):
 
 
 def load_findings(prop):
-    path = os.path.join(VERIF, "known_findings.json")
-    if not os.path.exists(path):
-        return []
-    with open(path) as f:
-        data = json.load(f)
-    return [x for x in data.get("findings", []) if x.get("property") == prop]
+    """known_findings.json (committed, read-only at run time) plus per-property drop-ins under
+    known_findings.d/ that are folded into the main file by tools/merge_findings.py."""
+    out = []
+    paths = [os.path.join(VERIF, "known_findings.json")]
+    d = os.path.join(VERIF, "known_findings.d")
+    if os.path.isdir(d):
+        paths += [os.path.join(d, fn) for fn in sorted(os.listdir(d)) if fn.endswith(".json")]
+    for path in paths:
+        if not os.path.exists(path):
+            continue
+        with open(path) as f:
+            data = json.load(f)
+        out += [x for x in data.get("findings", []) if x.get("property") == prop]
+    return out
 
 
 def _innermost_repo_frame(exc):
